@@ -109,6 +109,7 @@ func runC13(c *Ctx) {
 	c.Rule("C13.finish", "retryMonitor defers, at entry, a closure that closes target.finished and invokes no callback afterwards; every returning path leaves the loop through the ctx.Done() arm")
 	c.Rule("C13.remove", "Remove: unknown name => error with no cancel/wait/delete; otherwise under m.mu: cancel() then receive from finished then delete(targets, name), nil returned only after the receive")
 	c.Rule("C13.add", "Add: duplicate => error before the map store and before any go; success => exactly one map store and one go retryMonitor under m.mu with a fresh unbuffered finished channel")
+	c.Borrow("C16", map[string]string{"C16.key-agree": "C13.conn-forgotten", "C16.fail": "C13.conn-fail"}, "'failed sessions are retried with backoff for as long as the target is managed': a failed dial must be forgotten by the connection manager under the key it was cached under, or every later attempt is handed the first error without dialling again")
 	c.Borrow("C16", map[string]string{"C16.locked": "C13.conn-locks"}, "'failed sessions are retried for as long as the target is managed, and Remove returns': every session attempt and every release goes through the connection manager's mutex - a path that returns with it held blocks all later attempts of every target, and Remove then waits for a monitor that never finishes")
 	c.Rule("C13.retry-forever", "retryMonitor stores the constant 0 into the backoff's MaxElapsedTime before the loop and re-arms the timer (Timer.Reset) after every monitor attempt before selecting again")
 	c.Rule("C13.locks", "Manager.targets only under Manager.mu, target.reconnect only under target.mu, all locks released on all exits, no re-entrant acquisition; no function synchronously reachable from retryMonitor acquires Manager.mu before finished is closed (Remove holds it while waiting)")
